@@ -1,13 +1,136 @@
 /-
   Proofs/C02.lean — resting orders fill exactly when and where the price reaches them
-  (theorems over the matching part of the engine model).
+  (theorems over the matching part of the engine model: candidate selection, the path-order sort,
+  the `while True` matching loop of both simulators, the MARKET-order queue).
+  PROPERTY THEOREMS ONLY (helper lemmas: Proofs/Lemmas/Sort.lean, Proofs/Lemmas/Match.lean).
 -/
-import Jesse.Engine
+import Proofs.Lemmas.Match
 
 namespace C02
-open Jesse Jesse.Eng
+open Jesse Jesse.Eng Jesse.Gen MatchLemmas
 
-/-- placeholder (matching theorems follow) -/
-theorem insertBy_nil (key : Nat → Rat) (d : Bool) (x : Nat) : insertBy key d x [] = [x] := rfl
+variable {M : Type} [Inhabited M] (u : UserStrategy M)
+
+/-- the candidate selection of the normal simulator (`_get_executing_orders` + `_sort_execution_orders`
+    when more than one) -/
+def sel (sym : Nat) : Engine M → Candle → List Nat := fun e c =>
+  let os := executingOrders e sym c
+  if os.length > 1 then sortExecutionOrders e os [c] else os
+
+/-- NO MISSED FILL, normal simulator: when the matching loop of a minute returns without an error,
+    NO active order of the symbol has its price inside what remains of the minute's candle — every
+    order the remaining price path could still reach has been executed (for every strategy: the hooks
+    that run on each fill may submit, cancel and replace orders arbitrarily). -/
+theorem minute_no_resting_hit (fuel : Nat) (e : Engine M) (sym : Nat) (real : Candle) :
+    let r := matchLoop u fuel e sym real (sel sym e real) (sel sym) false
+    r.1.err = none → executingOrders r.1 sym r.2 = [] := by
+  intro r herr
+  have h := matchLoop_returns u fuel e sym real (sel sym e real) (sel sym) false herr
+  have key : ∀ (e' : Engine M) (c : Candle), matchLoop.firstHit e' c (sel sym e' c) = none → executingOrders e' sym c = [] := by
+    intro e' c hn
+    apply List.eq_nil_iff_forall_not_mem.mpr
+    intro id hid
+    have hmem : id ∈ sel sym e' c := by
+      unfold sel
+      simp only []
+      split
+      · exact mem_sort_single e' _ c id (fun z hz => (mem_executingOrders e' sym c z).mp hz |>.2.2) hid
+      · exact hid
+    obtain ⟨_, hact, hinc⟩ := (mem_executingOrders e' sym c id).mp hid
+    exact firstHit_none_not_mem e' c _ hn id hmem hact hinc
+  rcases h with ⟨h1, h2, h3⟩ | h
+  · rw [h1, h2]; rw [h1, h2] at h3; exact key _ _ h3
+  · exact key _ _ h
+
+/-- FIRST ON THE PATH: with several candidates inside a (valid) candle, the order the sort puts first is
+    the one the O-L-H-C / O-H-L-C price path reaches first: after the candle is split at its price, the
+    price of EVERY other candidate still lies inside the remaining part — no candidate is jumped over. -/
+theorem sorted_head_first_on_path (e : Engine M) (os : List Nat) (c a b : Candle) (id0 : Nat) (rest : List Nat)
+    (hv : c.Valid) (hall : ∀ id ∈ os, candleIncludesPrice c (orderOf e id).price)
+    (hsort : sortExecutionOrders e os [c] = id0 :: rest)
+    (hsplit : splitCandle c (orderOf e id0).price = some (a, b)) :
+    ∀ id ∈ os, candleIncludesPrice b (orderOf e id).price :=
+  head_first_on_path e os c a b id0 rest hv hall hsort hsplit
+
+/-- NO MISSED FILL, fast simulator: inside a chunk, when the matching loop of one minute returns
+    without an error, either nothing was executed and none of the carried candidates is active with its
+    price inside that minute's (gap-extended) candle, or no active order whose price lies in the chunk's
+    aggregate candle has its price inside what remains of that minute. -/
+theorem chunk_minute_no_resting_hit (fuel : Nat) (e : Engine M) (sym : Nat) (real cur : Candle) (cands : List Nat) :
+    let resel := fun (e : Engine M) (_ : Candle) => executingOrders e sym real
+    let r := matchLoop u fuel e sym cur cands resel true
+    r.1.err = none →
+      (r.1 = e ∧ r.2 = cur ∧ ∀ id ∈ cands, (orderOf e id).status = .active → ¬ candleIncludesPrice cur (orderOf e id).price)
+      ∨ (∀ id ∈ executingOrders r.1 sym real, ¬ candleIncludesPrice r.2 (orderOf r.1 id).price) := by
+  intro resel r herr
+  have h := matchLoop_returns u fuel e sym cur cands resel true herr
+  rcases h with ⟨h1, h2, h3⟩ | h
+  · left
+    refine ⟨h1, h2, ?_⟩
+    intro id hid hact hinc
+    rw [h1, h2] at h3
+    exact firstHit_none_not_mem e cur cands h3 id hid hact hinc
+  · right
+    intro id hid hinc
+    obtain ⟨_, hact, _⟩ := (mem_executingOrders r.1 sym real id).mp hid
+    exact firstHit_none_not_mem r.1 r.2 _ h id hid hact hinc
+
+/-- NEVER AFTER CANCELLATION / NEVER TWICE: executing an order that is not active (cancelled, already
+    executed, unknown) changes nothing at all — no fill event, no account change, no hook. -/
+theorem inactive_order_never_fills (e : Engine M) (id : Nat) (h : (orderOf e id).status ≠ .active) :
+    executeOrder u e id = e := by
+  unfold executeOrder
+  by_cases he : e.err.isSome
+  · simp [he]
+  · simp [he, h]
+
+/-- MARKET ORDERS ARE FILLED AT ONCE: when the strategy step's market-order pass returns without an
+    error, the queue of submitted-but-unfilled MARKET orders is empty — none waits for a later candle. -/
+theorem market_queue_drained (fuel : Nat) (e : Engine M) (h : (executePendingMarketOrders u fuel e).err = none) :
+    (executePendingMarketOrders u fuel e).toExecute = [] := by
+  unfold executePendingMarketOrders at *
+  by_cases h0 : e.toExecute.isEmpty
+  · have hnil : e.toExecute = [] := by simpa using h0
+    simp only [h0, if_true]
+    exact hnil
+  · simp only [h0] at *
+    exact market_go_drained u fuel e 0 h
+
+end C02
+
+namespace C02
+open Jesse Jesse.Eng Jesse.Gen Jesse.Acc
+
+/-! ### non-vacuity: a concrete minute with two resting buys on both sides of the open -/
+
+/-- a strategy that never does anything -/
+def idle : UserStrategy Unit :=
+  { before := fun _ _ m => m, after := fun _ _ m => m, shouldLong := fun _ _ _ => false,
+    shouldShort := fun _ _ _ => false, shouldCancelEntry := fun _ _ _ => false,
+    goLong := fun _ _ m d => (m, d), goShort := fun _ _ m d => (m, d), updatePosition := fun _ _ m d => (m, d),
+    onOpen := fun _ _ _ m d => (m, d), onIncreased := fun _ _ _ m d => (m, d), onReduced := fun _ _ _ m d => (m, d),
+    onClose := fun _ _ _ m d => (m, d), beforeTerminate := fun _ _ m d => (m, d) }
+
+/-- futures, one 1m route, a LIMIT buy at 97 and a STOP buy at 103 resting -/
+def demoEngine : Engine Unit :=
+  let e0 : Engine Unit := initEngine { routes := [⟨0, 1⟩], dataRoutes := [], nsym := 1, isolated := false } .futures 10000 0 1 ()
+  let w1 := match Acc.submit e0.w 0 .buy .limit 1 97 false with | .ok w => w | .error (_, w) => w
+  let w2 := match Acc.submit w1 0 .buy .stop 1 103 false with | .ok w => w | .error (_, w) => w
+  { e0 with w := w2, via := [none, none], storage := [[0, 1]],
+            strat := [{ mem := (), decl := { buy := some [(1, 97), (1, 103)] }, shadow := { buy := some [(1, 97), (1, 103)] } }] }
+
+/-- the flat-bodied candle o = c = 100, h = 105, l = 95 (treated as rising: low first) -/
+def demoCandle : Candle := ⟨60000, 100, 100, 105, 95, 1⟩
+
+/-- both orders are inside the candle, the sort puts the LIMIT buy below the open first (rising path:
+    low first), the matching loop ends without error, both orders are executed in that order and
+    nothing is left inside the remaining candle -/
+example : executingOrders demoEngine 0 demoCandle = [0, 1] := by decide +kernel
+example : sortExecutionOrders demoEngine [0, 1] [demoCandle] = [0, 1] := by decide +kernel
+example : (matchLoop idle 50 demoEngine 0 demoCandle (sel 0 demoEngine demoCandle) (sel 0) false).1.err = none := by
+  decide +kernel
+example : (matchLoop idle 50 demoEngine 0 demoCandle (sel 0 demoEngine demoCandle) (sel 0) false).1.w.orders.map (·.status)
+    = [.executed, .executed] := by decide +kernel
+example : (demoCandle.Valid) := by decide +kernel
 
 end C02
